@@ -35,11 +35,12 @@ type c03cfg struct {
 	inflight []string // kinds
 	late     []string // late clients: "quick" | "long"
 	sick     bool     // the targets fail their probes after deployment: unhealthy (out of rotation) but with requests in flight
+	held     bool     // rollout-redeploy only: the service is paused, two requests (one per group) are held, the command runs, then resume
 	prior    string   // "timeout" | "clean": the targets were drained before (a pause cutting off a request at its deadline / a pause with a request finishing early), then resumed
 }
 
 func (c c03cfg) String() string {
-	return fmt.Sprintf("cmd=%s targets=%d rollout=%v inflight=[%s] late=[%s] sick=%v prior=%s", c.cmd, c.targets, c.rollout, strings.Join(c.inflight, ","), strings.Join(c.late, ","), c.sick, c.prior)
+	return fmt.Sprintf("cmd=%s targets=%d rollout=%v inflight=[%s] late=[%s] sick=%v prior=%s", c.cmd, c.targets, c.rollout, strings.Join(c.inflight, ","), strings.Join(c.late, ","), c.sick, c.prior) + map[bool]string{true: " held=true"}[c.held]
 }
 
 func c03Configs(tier string) []c03cfg {
@@ -71,6 +72,7 @@ func c03Configs(tier string) []c03cfg {
 				cfgs = append(cfgs, c03cfg{cmd: cmd, targets: 1, inflight: []string{"after"}, prior: pr})
 			}
 		}
+		cfgs = append(cfgs, c03RolloutRedeploy(tier)...)
 		return cfgs
 	}
 
@@ -125,11 +127,31 @@ func c03Configs(tier string) []c03cfg {
 			}
 		}
 	}
+	cfgs = append(cfgs, c03RolloutRedeploy(tier)...)
 	// rollout targets present (pause/stop drain both sets)
 	for _, cmd := range []string{"pause", "stop"} {
 		for _, in := range [][]string{{"early"}, {"never", "upgrade"}, {"after", "before"}} {
 			cfgs = append(cfgs, c03cfg{cmd: cmd, targets: 1, rollout: true, inflight: in, late: []string{"long"}})
 		}
+	}
+	return cfgs
+}
+
+// c03RolloutRedeploy: the command is a rollout deploy replacing the rollout target (the service object stays in place,
+// only the rollout set is swapped and the replaced rollout target drained), with requests of the rollout group in
+// flight or arriving late, or with requests of both groups held by a pause that is lifted after the command returned.
+func c03RolloutRedeploy(tier string) []c03cfg {
+	cfgs := []c03cfg{
+		{cmd: "rollout-redeploy", targets: 1, rollout: true, inflight: []string{"early", "never"}, late: []string{"long"}},
+		{cmd: "rollout-redeploy", targets: 1, rollout: true, inflight: []string{"upgrade", "after"}, late: []string{"quick", "quick"}},
+		{cmd: "rollout-redeploy", targets: 1, rollout: true, held: true},
+		{cmd: "rollout-redeploy", targets: 1, rollout: true, held: true, late: []string{"quick", "quick"}},
+	}
+	if tier != "quick" {
+		for _, in := range [][]string{{"before"}, {"lateup"}, {"offer", "never"}, {"early", "after", "upgrade"}} {
+			cfgs = append(cfgs, c03cfg{cmd: "rollout-redeploy", targets: 1, rollout: true, inflight: in, late: []string{"long", "quick"}})
+		}
+		cfgs = append(cfgs, c03cfg{cmd: "rollout-redeploy", targets: 2, rollout: true, held: true, late: []string{"long"}})
 	}
 	return cfgs
 }
@@ -174,6 +196,9 @@ func c03Scenario(c c03cfg) *Scenario {
 	if c.rollout {
 		drained["ra:80"] = true
 	}
+	if c.cmd == "rollout-redeploy" {
+		drained = map[string]bool{"ra:80": true} // only the replaced rollout target is drained
+	}
 	sc.Run = func(w *World) {
 		for _, n := range olds {
 			if c.sick {
@@ -183,6 +208,7 @@ func c03Scenario(c c03cfg) *Scenario {
 			}
 		}
 		w.AddTarget("na:80")
+		w.AddTarget("rb:80")
 		if r := w.Deploy(deployArgs("s1", olds, []string{host}, nil)); r.Err != nil {
 			w.Note("setup: %v", r.Err)
 			return
@@ -233,13 +259,24 @@ func c03Scenario(c c03cfg) *Scenario {
 			if k == "offer" {
 				spec.Header = [][2]string{{"Connection", "Upgrade, HTTP2-Settings"}, {"Upgrade", "h2c"}, {"HTTP2-Settings", "AAMAAABkAARAAAAAAAIAAAAA"}}
 			}
-			if c.rollout && i%2 == 1 {
+			if c.rollout && (i%2 == 1 || c.cmd == "rollout-redeploy") {
 				spec.Cookie = "kamal-rollout=v"
 			}
 			vsched.GoTagged("client", func() {
 				defer wg.Done()
 				w.Do(spec)
 			})
+		}
+		if c.held {
+			w.Pause("s1", vD, vMaxPause)
+			for i, ck := range []string{"kamal-rollout=v", ""} {
+				wg.Add(1)
+				spec := ReqSpec{ID: fmt.Sprintf("held%d", i), Host: host, Cookie: ck}
+				vsched.GoTagged("client", func() {
+					defer wg.Done()
+					w.Do(spec)
+				})
+			}
 		}
 		time.Sleep(100 * time.Millisecond)
 		if c.sick {
@@ -258,6 +295,11 @@ func c03Scenario(c c03cfg) *Scenario {
 				w.Pause("s1", vD, vMaxPause)
 			case "stop":
 				w.Stop("s1", vD, "maintenance")
+			case "rollout-redeploy":
+				w.RolloutDeploy("s1", []string{"rb:80"})
+				if c.held {
+					w.Resume("s1")
+				}
 			}
 		})
 		for i, k := range c.late {
@@ -265,6 +307,9 @@ func c03Scenario(c c03cfg) *Scenario {
 			spec := ReqSpec{ID: fmt.Sprintf("late%d-%s", i, k), Host: host}
 			if k == "long" {
 				spec.Plan = "delay=3s"
+			}
+			if c.cmd == "rollout-redeploy" && i%2 == 0 {
+				spec.Cookie = "kamal-rollout=v"
 			}
 			vsched.GoTagged("client", func() {
 				defer wg.Done()
@@ -285,7 +330,7 @@ func c03Scenario(c c03cfg) *Scenario {
 		}
 		var cmd *CmdObs
 		for _, x := range w.Cmds {
-			if x.Thread != "m" {
+			if x.Thread != "m" && cmd == nil {
 				cmd = x
 			}
 		}
@@ -326,7 +371,11 @@ func c03Scenario(c c03cfg) *Scenario {
 				vs = append(vs, Violation{"C03", fmt.Sprintf("Q1 %s %s", c.cmd, sig), fmt.Sprintf("request %s still active on drained target %s when %s returned at %v (reached it at %v)", sp.id, sp.target, cmd.Name, cmd.End, sp.startAt)})
 			}
 			if sp.startSeq > cmd.EndSeq {
-				vs = append(vs, Violation{"C03", fmt.Sprintf("Q2 %s request-sent-to-drained-target-after-return", c.cmd), fmt.Sprintf("request %s reached drained target %s at %v, after %s returned at %v", sp.id, sp.target, sp.startAt, cmd.Name, cmd.End)})
+				what := "request"
+				if strings.HasPrefix(sp.id, "held") {
+					what = "held-request" // held by a pause that was in force long before the command began
+				}
+				vs = append(vs, Violation{"C03", fmt.Sprintf("Q2 %s %s-sent-to-drained-target-after-return", c.cmd, what), fmt.Sprintf("request %s reached drained target %s at %v, after %s returned at %v", sp.id, sp.target, sp.startAt, cmd.Name, cmd.End)})
 			}
 		}
 		// in-flight requests
@@ -363,6 +412,14 @@ func c03Scenario(c c03cfg) *Scenario {
 				}
 			}
 		}
+		if c.held {
+			for i, want := range []string{"rb:80", olds[0]} {
+				r := reqByID[fmt.Sprintf("held%d", i)]
+				if r != nil && r.Done && !stalled && c.targets == 1 && (r.Status != 200 || r.ServedBy() != want) {
+					vs = append(vs, Violation{"C03", "Q2 held-request-not-served-by-current-target", fmt.Sprintf("%s, released by the resume after the rollout deploy returned, got %s (want %s)", r.ID, r.Summary(), want)})
+				}
+			}
+		}
 		if !stalled && cmd.End > td+vD {
 			vs = append(vs, Violation{"C03", "Q6 return-after-drain-deadline", fmt.Sprintf("%s started %v returned %v (deadline %v)", cmd.Name, td, cmd.End, td+vD)})
 		}
@@ -381,6 +438,6 @@ func checkC03(t *testing.T, job *Job, res *Result) {
 		scs = append(scs, c03Scenario(c))
 	}
 	b := Bounds{D: 2, S: 1, Total: 2}
-	res.Rule = "configurations = command {redeploy, pause, stop} x targets {1,2} x in-flight multiset over {done early, done just before the drain deadline, just after, never, upgraded} x late clients {quick, long} (x rollout targets); per configuration every schedule within the deviation bounds; oracle Q1-Q6 of DESIGN.md C03 on target-side logs and virtual time"
+	res.Rule = "configurations = command {redeploy, pause, stop, rollout deploy replacing the rollout target (also with requests held by a pause that is lifted afterwards)} x targets {1,2} x in-flight multiset over {done early, done just before the drain deadline, just after, never, upgraded} x late clients {quick, long} (x rollout targets); per configuration every schedule within the deviation bounds; oracle Q1-Q6 of DESIGN.md C03 on target-side logs and virtual time"
 	runS(t, job, res, "C03", scs, b, 6000)
 }
